@@ -19,12 +19,12 @@ TEXT = {
    ref="DESIGN.md §3 C05"),
  "C02": dict(
    technique="property-based testing (rapid): generated UTXO sets x request sequences; oracle = validity predicate over the decoded transaction + success/failure regions (many correct outputs exist, so a predicate rather than one expected transaction)",
-   text="Wallet coin sets are produced by generated chains (fan-out transactions with amounts {1,2,5}x10^k incl. dust-sized and repeated amounts, coins larger than any target, immature coinbase, staking/binding deposits, coins spent by pending transactions, another wallet's coins; in thorough occasionally more than the 649-coin selection cap). Sequences of 1..6 create calls (AutoCreateRawTransaction, EstimateTxFee, CreateStakingTransaction, CreateBindingTransaction, CreateRawTransaction with explicit inputs incl. foreign / unknown / duplicate ones) draw output maps, user fee (0, tiny, large), lock time, sender / change address (own, foreign, empty), payload, subtract-fee sets. Each returned transaction is decoded and checked: inputs distinct and owned by the selected wallet (and sender address); under automatic selection only unspent, mature, unlocked, not pending-spent, not reserved by an earlier draft of the sequence; outputs multiset = request (fee-bearing ones reduced by equal shares summing to the fee) + at most one change to the requested address else the first input's address; sum(in)-sum(out) == reported fee >= user fee and >= relay minimum of the size after actually signing it; above the user's fee only within the relay minimum of a standard-size transaction; must-succeed / must-fail (insufficient-funds error) regions. One defect found (duplicate explicit inputs) was repaired (fix: 99bd160). Exploration: sampled.",
+   text="Wallet coin sets are produced by generated chains (fan-out transactions with amounts {1,2,5}x10^k incl. dust-sized and repeated amounts, coins larger than any target, immature coinbase, staking/binding deposits, coins spent by pending transactions, another wallet's coins; in thorough occasionally more than the 649-coin selection cap). Sequences of 1..6 create calls (AutoCreateRawTransaction, EstimateTxFee, CreateStakingTransaction, CreateBindingTransaction, CreateRawTransaction with explicit inputs incl. foreign / unknown / duplicate ones) draw output maps, user fee (0, tiny, large), lock time, sender / change address (own, foreign, empty), payload, subtract-fee sets. Each returned transaction is decoded and checked: inputs distinct and owned by the selected wallet (and sender address); under automatic selection only unspent, mature, unlocked, not pending-spent, not reserved by an earlier draft of the sequence; outputs multiset = request (fee-bearing ones reduced by equal shares summing to the fee) + at most one change to the requested address else the first input's address; sum(in)-sum(out) == reported fee >= user fee and >= relay minimum of the size after actually signing it; above the user's fee only within the relay minimum of a standard-size transaction; must-succeed / must-fail (insufficient-funds error) regions. One defect found (duplicate explicit inputs) was repaired (fix: ce10f3b). Exploration: sampled.",
    note="Requests keep amounts above the dust threshold (dust rejection is not part of the statement). Between the must-succeed and must-fail regions either outcome is accepted. The api-level fee ceiling is exercised in C19's API runs, not here. The node's own mempool is empty.",
    ref="DESIGN.md §3 C02"),
  "C03": dict(
    technique="property-based testing (rapid): generated wallets/chains/transactions/flags/passphrase attempt sequences; oracle = independent consensus script-engine run + ECDSA verification under independently derived keys + field-wise comparison",
-   text="Wallets imported from generated mnemonics receive coins through a generated chain (standard, coinbase, staking, old and new binding outputs on several addresses; optionally outputs of still-pending transactions). Transactions over 1..6 of the selected wallet's unspent outputs (consensus sequences, 1..6 outputs, lock time, payload) are signed with each of the six sighash flags under attempt sequences mixing the right passphrase with wrong ones (edit distance 1, prefix, case change, other wallet's, empty, over-long, non-alphabet bytes, padded). Right passphrase: must succeed, returned bytes must decode to the same transaction in every non-witness field (and same txid), every input must execute in a fresh txscript engine against the spent output (MASSip2 flag by parent height), the witness script must be the 1-of-1 redeem script of the address and the signature must verify (ECDSA) under the public key the harness derived itself (BIP-39/BIP-32 reference) over the engine's digest for that flag. Wrong passphrase: error, nil bytes, caller's transaction untouched - also directly after a success. One defect found (panic on a pending parent) was repaired (fix: 5b7907c). Exploration: sampled.",
+   text="Wallets imported from generated mnemonics receive coins through a generated chain (standard, coinbase, staking, old and new binding outputs on several addresses; optionally outputs of still-pending transactions). Transactions over 1..6 of the selected wallet's unspent outputs (consensus sequences, 1..6 outputs, lock time, payload) are signed with each of the six sighash flags under attempt sequences mixing the right passphrase with wrong ones (edit distance 1, prefix, case change, other wallet's, empty, over-long, non-alphabet bytes, padded). Right passphrase: must succeed, returned bytes must decode to the same transaction in every non-witness field (and same txid), every input must execute in a fresh txscript engine against the spent output (MASSip2 flag by parent height), the witness script must be the 1-of-1 redeem script of the address and the signature must verify (ECDSA) under the public key the harness derived itself (BIP-39/BIP-32 reference) over the engine's digest for that flag. Wrong passphrase: error, nil bytes, caller's transaction untouched - also directly after a success. One defect found (panic on a pending parent) was repaired (fix: 72d579e). Exploration: sampled.",
    note="Trusted: mass-core txscript engine and digest (consensus), btcec. For the two SINGLE modes the generator keeps #outputs >= #inputs (documented precondition). Wallets whose path crosses the C14 known finding are not generated.",
    ref="DESIGN.md §3 C03"),
  "C12": dict(
